@@ -33,6 +33,7 @@ type fault struct {
 	Occ      int    `json:"occ"`                                // occurrence of that gate (1-based)
 	Block    bool   `json:"peer_stops_reading,omitempty"`       // from the moment of cancellation on the peer accepts no more bytes (writes block)
 	WFail    bool   `json:"cancel_write_fails,omitempty"`       // from the moment of cancellation on, every write on the connection fails
+	LateMs   int    `json:"cancel_after_ms,omitempty"`          // with Block: the peer stops reading at the gate, the caller cancels this much later (the sender is inside the blocked write)
 	Prelude  string `json:"prelude,omitempty"`                  // an earlier call on the same client: "exception" (a query the server failed), "ping-cancelled"
 	Cause    bool   `json:"custom_cause,omitempty"`             // the caller cancels with a cause of its own (context.WithCancelCause / WithTimeoutCause)
 	Far      bool   `json:"far_deadline,omitempty"`             // the caller's context also carries a deadline far beyond the read timeout
@@ -426,7 +427,11 @@ func runScenario(sp scenSpec, f fault, rt time.Duration) (*scenOutcome, error) {
 					conn.blockWritesAt = len(conn.written)
 					conn.mu.Unlock()
 				}
-				cancelParent()
+				if f.LateMs > 0 {
+					time.AfterFunc(time.Duration(f.LateMs)*time.Millisecond, cancelParent)
+				} else {
+					cancelParent()
+				}
 				if f.Sched == "recv-first" {
 					time.Sleep(rt + 20*time.Millisecond) // the receiver notices the cancellation while the gated goroutine is held
 				}
@@ -1034,6 +1039,7 @@ func checkC10(R *Result, sp scenSpec, f fault, o, base *scenOutcome, rt time.Dur
 	if f.Block {
 		limit += 1100 * time.Millisecond // the Cancel write gives up at its own 1s deadline
 	}
+	limit += time.Duration(f.LateMs) * time.Millisecond
 	if o.elapsed > limit+time.Duration(len(base.gates))*time.Millisecond {
 		viol("cancel-not-prompt", fmt.Sprintf("Do returned %v after start; limit %v (read timeout %v + grace)", o.elapsed, limit, rt))
 	}
@@ -1131,6 +1137,8 @@ func runC10(c *Ctx) {
 					if g == "sender.afterEncodeQuery" || g == "sender.beforeInputFlush" || g == "sender.beforeFinalFlush" {
 						// the peer stops reading: the pending flush and the Cancel write both block until the write deadline
 						fs = append(fs, fault{Kind: "cancel", Gate: g, Occ: occ, Block: true, Sched: "held"})
+						// … and the cancellation arrives while the sender is already inside the blocked write
+						fs = append(fs, fault{Kind: "cancel", Gate: g, Occ: occ, Block: true, LateMs: 60})
 					}
 					fs = append(fs, fault{Kind: "cancel", Gate: g, Occ: occ, Sched: "recv-first"})
 				}
